@@ -149,6 +149,7 @@ static void gen(plan_t *p, rng_t *r)
     if (rng_chance(r, 1, 6)) plan_knob(p, "select.eintr", rng_range(r, 1, 4));      /* a back-off wait is interrupted by a signal */
     plan_knob(p, "sock.rxcap", rxcaps[rng_below(r, 7)]);
     plan_knob(p, "alloc.fill", rng_range(r, 0, 4));
+    plan_knob(p, "alloc.zero", rng_chance(r, 1, 4)); plan_knob(p, "alloc.realloc0", rng_chance(r, 1, 4));      /* the two readings ISO C allows for a request of no bytes */
     plan_knob(p, "alloc.realloc", rng_range(r, 0, 2));
     plan_knob(p, "alloc.reuse", rng_range(r, 0, 2));
     /* server */
